@@ -4,7 +4,7 @@
    they are quantified variables here and every fact used about them is a visible premise.
    [res] = Ok v | Err code | Panic ("the Go code would panic here"). *)
 From Coq Require Import List ZArith Bool Arith.
-From V Require Import Lib.Enc Gen.Cryptz Model.Aes Proofs.AesPkcs7 Proofs.AesCbc Proofs.AesMem.
+From V Require Import Lib.Enc Gen.Cryptz Model.Aes Proofs.AesPkcs7 Proofs.AesCbc Proofs.AesMem Proofs.AesRefine.
 Import ListNotations.
 
 (* ---- length helpers are exact (the `& blockSizeMask` arithmetic is `mod 16`) *)
@@ -204,3 +204,20 @@ Theorem c08_alias_gcm_decrypt_separate : forall (open : bytes -> bytes -> bytes 
     lift (fun d => A ++ d ++ Mid ++ ct ++ Post) (gcm_decrypt open dst ct key nonce ad).
 Proof. exact gcm_decrypt_disjoint. Qed.
 Print Assumptions c08_alias_gcm_decrypt_separate.
+
+(* ---- refinement: for EVERY case the model's output passes the judge [spec_ok] (what `sub 2` of Run/C08 applies to
+        the implementation's output), provided the library's whole-message CBC is the SP 800-38A chain over the block
+        function.  [op_wf]: the bytes handed to the un-padding routines are bytes (0..255), and a case marked
+        "corrupted, must be rejected" is one the library's Open rejects. *)
+Theorem c08_model_meets_spec : forall (E D : bytes -> bytes -> bytes)
+  (seal : bytes -> bytes -> bytes -> bytes -> bytes) (open : bytes -> bytes -> bytes -> bytes -> option bytes)
+  (std_enc std_dec : bytes -> bytes -> bytes -> bytes),
+  (forall k b, good_key k = true -> length b = 16 -> D k (E k b) = b) ->
+  (forall k b, good_key k = true -> length b = 16 -> length (E k b) = 16) ->
+  (forall k b, good_key k = true -> length b = 16 -> length (D k b) = 16) ->
+  (forall k n c a p, open k n c a = Some p -> length c = length p + 16) ->
+  (forall k iv d, good_key k = true -> length iv = 16 -> length d mod 16 = 0 -> std_enc k iv d = cbc_enc_bytes E k iv d) ->
+  (forall k iv d, good_key k = true -> length iv = 16 -> length d mod 16 = 0 -> std_dec k iv d = cbc_dec_bytes D k iv d) ->
+  forall o, op_wf open o -> spec_ok std_enc std_dec seal open o (run_op E D seal open o) = true.
+Proof. exact model_meets_spec. Qed.
+Print Assumptions c08_model_meets_spec.
